@@ -17,8 +17,11 @@ Transliteration of the checkpoint store:
 Strings and file names are byte lists (Rust `String`s are UTF-8 byte sequences; every operation the code
 performs on them — prefix/suffix stripping, digit tests, parsing — is byte-wise).
 
-Un-prefixed definitions follow the CURRENT code (after the two `fix:` commits: decode limit,
-strict `checkpoint_<id>_<decimal>.bin` names). `Legacy.*` is the code at the pinned commit.
+Un-prefixed definitions follow the CURRENT code (after the three `fix:` commits: decode limit,
+strict `checkpoint_<id>_<decimal>.bin` names, directory scans take regular files only). `Legacy.*` is the code
+before them. The model file system holds REGULAR FILES only: since the third fix a sub-directory of the checkpoint
+directory is invisible to every scan whatever its name (`Legacy.cleanupWithDirs` / `Legacy.latestWithDirs` say what
+happened before).
 Imports nothing outside core Lean.
 -/
 namespace IB.Checkpoint
@@ -423,6 +426,19 @@ def latest (enabled : Bool) (pid : Bytes) (fs : FS) : Option Name :=
 def clear (pid : Bytes) (fs : FS) : FS := clearWith (isCandidate pid) fs
 def save (max : Option Nat) (fs : FS) (s : State) : FS :=
   cleanup max s.pipelineId (write fs (fileName s) (encode s))
+
+/-- before the `is_file` fix the scans took every directory ENTRY with a well-formed name as a checkpoint —
+    sub-directories (`dirs`) included. `remove_file` fails on a directory and the error is ignored, so a doomed
+    directory stays while the doomed files go. -/
+def cleanupWithDirs (max : Option Nat) (pid : Bytes) (dirs : List Name) (fs : FS) : FS :=
+  match max with
+  | none => fs
+  | some m =>
+    let d := doomed (isOwn pid) (sortKey (pfx pid)) m (names fs ++ dirs)
+    fs.filter (fun f => !d.contains f.1)
+
+def latestWithDirs (pid : Bytes) (dirs : List Name) (fs : FS) : Option Name :=
+  ((names fs ++ dirs).filter (isOwn pid) |>.mergeSort (fun a b => decide (sortKey (pfx pid) a ≤ sortKey (pfx pid) b))).getLast?
 
 end Legacy
 
